@@ -95,6 +95,8 @@ func runC01(c *Ctx, r *Report) {
 	r.Rule("C01/write-primitives", "Channel.Write forwards the caller's bytes unchanged; WriteReturn writes the return character; WriteAndReturn is Write then, on success, one WriteReturn", 3)
 	r.Rule("C01/one-response-per-command", "SendCommands sends the slice's elements in order, the last one last", 2)
 
+	r.Rule("C01/op-options-applied", "channel.NewOperation applies the full per-operation option list in order (prompt stripping, input matching mode, eager): an option that is not for the object does not end the loop", 1)
+	checkOperationApplyLoop(c, r, "C01/op-options-applied", "channel")
 	r.Rule("C01/match-every-chunk", "each read-until loop hands its accumulation to the matcher after every chunk it appended, before it reads again", 4)
 	checkMatchEveryChunk(c, r, "C01/match-every-chunk")
 	checkSendInputWorker(c, r)
